@@ -277,6 +277,7 @@ void harness(void)
     unsigned long f0;
     int i0 = nondet_int();
     vopt_env_init();
+    libast_debug_level = 0;      /* debug output off (D_OPTIONS only prints; C20 covers the macros) */
     __CPROVER_assume(2 <= argc && argc <= VB_ARGC);
     av[0] = prog;
     for (k = 0; k < NW; k++) {
